@@ -4,7 +4,7 @@ ID = "C12"
 PROP = {
         "props_module": "FV.Props.C12",
         "builders": {"rt": V.build_rt},
-        "suites": [("rt", "c12", {"quick": 15000, "thorough": 250000})],
+        "suites": [("rt", "c12", {"quick": 15000, "thorough": 150000})],
         "rule": "One case = (a) a random program of Write/WriteByte/WriteString/Reset ops (0..12 ops, sizes 0..300) on the real frugal.NewTMemoryOutputBuffer(limit), every op executed, then Bytes(); or (b) the real Thrift binary/compact/JSON protocol writing a payload shape (one big string/binary/list/map of 0..70000 bytes, occasionally 1 MiB, placed first/middle/last among small fields) into the real buffer; or (c) a real FStandardClient.Call answered by a real FBaseProcessor + SendReply over an in-process NATS-shaped transport or the real HTTP transport/handler (httptest). Limits: 0, 1..5, size-8..size+8, far below, far above, 16/1024/1 MiB.",
         "trusted": ["Modelled, not verified: an encoder is the list of transport operations it performs (recorded from the real Thrift encoders by a recording TRichTransport on every case); bytes.Buffer appends"],
         "level_text": "Theorems (Lean 4) about an executable model of TMemoryOutputBuffer (Write/WriteByte/WriteString/Reset/Bytes), prepareMessage, the transports' own size checks, SendReply/trapError/sendError and processReply, for EVERY limit and EVERY sequence of write operations. The model is tied to the code on every run by executing the same op programs on the real buffer, real Thrift protocols and real client/server calls and diffing the outputs.",
